@@ -159,6 +159,13 @@ func (e *c23Env) op(f []string) (out string) {
 	}
 	n := func(i int) int { return c20Atoi(arg(i)) }
 	okb := func(i int) bool { return n(i) == 0 || n(i) == 1 }
+	// the C20 generator appends a version reference to some ops; C23 only accepts "N" (none) there
+	if l := len(f); l > 0 && f[l-1] == "N" {
+		switch {
+		case arg(0) == "D" && l == 5, arg(0) == "T" && l == 5, arg(0) == "U" && l == 4, arg(0) == "R" && l == 6:
+			f = f[:l-1]
+		}
+	}
 	st := e.rs
 	switch arg(0) {
 	case "P":
@@ -210,7 +217,10 @@ func (e *c23Env) op(f []string) (out string) {
 		}
 		var entries []storage.DeleteObjectsInputEntry
 		for _, p := range f[2:] {
-			kc := strings.SplitN(p, ":", 2)
+			kc := strings.Split(p, ":")
+			if len(kc) == 3 && kc[2] == "N" {
+				kc = kc[:2]
+			}
 			if len(kc) != 2 {
 				return "BadOp"
 			}
